@@ -60,6 +60,10 @@ var knownTags = map[string]string{
 	"cls-exception-subclass": "diff:cls-exception-subclass",
 }
 
+// aloneOnly: features the generator refuses with an explicit compile error; they run alone
+// (a refused part would take the whole mixed program with it).
+var aloneOnly = map[string]bool{"class-constant-expr": true}
+
 func sigFor(tag string) string {
 	if s, ok := knownTags[tag]; ok {
 		return s
@@ -99,6 +103,13 @@ func (rn *runner) judge(progs []*Prog, br *BatchResult, shrinkPass bool) {
 			// the parse-refusal stream below through the interpreted run of the batch.
 			if rn.explore != nil {
 				fmt.Fprintf(rn.explore, "REFUSED %s %v %s: %s\n", p.Name, p.Tags, rf.Stage, rf.Msg)
+			}
+			if rf.Stage == "parse" {
+				if io, ok := br.Interp[p.Name]; ok && io.ErrKind == "" && io.Exit == 0 {
+					c.Violation("refused-but-runs:"+strings.Join(uniqSorted(p.Tags), "+"), "the compile command refuses "+p.Name+" at the parse stage ("+rf.Msg+") but the interpreter runs it: "+io.String(), caseOf(p))
+				} else if ok {
+					c.Hit("refused:parse:interpreter-refuses-too")
+				}
 			}
 			continue
 		}
@@ -393,12 +404,14 @@ func Run(c *vh.Ctx) {
 	structStream(c, m)
 
 	// ---- differential batches
-	var entryPool, clsPool, knownFeat []*feature
+	var entryPool, clsPool, knownFeat, alone []*feature
 	for i := range features {
 		f := &features[i]
 		switch {
 		case knownTags[f.Tag] != "":
 			knownFeat = append(knownFeat, f)
+		case aloneOnly[f.Tag]:
+			alone = append(alone, f)
 		case f.Group == "cls":
 			clsPool = append(clsPool, f)
 			// (classes are only mixed with other class features and entry features in the class batch)
@@ -417,6 +430,9 @@ func Run(c *vh.Ctx) {
 			for k := 0; k < reps; k++ {
 				progs = append(progs, FeatProg(c.Rand, f, name("f"), "feat"))
 			}
+		}
+		for _, f := range alone {
+			progs = append(progs, FeatProg(c.Rand, f, name("f"), "feat"))
 		}
 		for i := 0; i < c.N(90, 330); i++ {
 			progs = append(progs, SafeProg(c.Rand, name("s")))
